@@ -14,18 +14,18 @@ LEVEL_TEXT = ("TLC explores OptParse.tla - the ideal reading of a command line a
               "behaviour TLC generates (expected targets, argv, bad count, flags per pass) is then executed on spifopt_parse in an "
               "ASan build of the current tree (fresh exact-size heap argv, guarded targets, CPU watchdog) and compared.")
 LEVEL_NOTE = ("Bounded scope: all argv of <= 3 words over 17 tokens and <= 2 words over the full 35-token alphabet (quick); <= 4 words "
-              "over 12 tokens and <= 3 words over all 35 (thorough); 2 option tables x 4 settings; beyond the bound only seeded "
+              "over 12 tokens and <= 3 words over all 35 (thorough); plus two family scopes: all ten boolean words (8 + 2 case variants) bare and =attached x long boolean, and long names that are prefixes of each other / of the typed name (<= 2-3 words); 2 option tables x 4 settings; beyond the bound only seeded "
               "samples of 4-8 words (TLC computes their expectation too). Points DESIGN.md 8a marks E are accepted either way "
               "(boolean word after a short boolean, lone '-' / bare '--', whether unknown-option words stay in argv, exact count "
               "for a missing value); spellings marked X end the comparison and are run for termination and memory safety only. "
               "Heap balance is not judged when a string/list option is given twice (the overwritten value is the program's) nor "
-              "on X lines. Case-insensitive matching, spifopt_usage output and the bad-option limit (which exits) are not "
+              "on X lines. Case-insensitive matching only through a few mixed-case tokens; spifopt_usage output and the bad-option limit (which exits) are not "
               "covered. Trusted: TLC, harness/opt_replay.c, the comparison in checks/c08.py, ASan.")
 TECHNIQUE = "TLA+ spec + TLC exhaustive enumeration of behaviours replayed on the implementation"
 DESIGN_REF = "DESIGN.md section 6 C08, 8a Options"
 
-CFGS = {"quick": ["OptParse_quick.cfg", "OptParse_quick2.cfg"],
-        "thorough": ["OptParse_thorough.cfg", "OptParse_thorough2.cfg"]}
+CFGS = {"quick": ["OptParse_quick.cfg", "OptParse_quick2.cfg", "OptParse_bool.cfg", "OptParse_prefix.cfg"],
+        "thorough": ["OptParse_thorough.cfg", "OptParse_thorough2.cfg", "OptParse_bool.cfg", "OptParse_prefix3.cfg"]}
 SETBITS = {"PRE": 1, "REM": 2}
 
 
@@ -248,8 +248,8 @@ def long_vectors(ctx, exe, state):
     from vlib.tlc import SPEC
     rnd = random.Random(ctx.seed)
     n, lo, hi = (400, 4, 6) if ctx.tier == "quick" else (6000, 5, 8)
-    ntok = len(state["hdr"]["toktext"])
-    plain = [k + 1 for k, w in enumerate(state["hdr"]["toktext"]) if w and w[0] != 45]
+    ntok = state["hdr"]["nfull"]
+    plain = [k + 1 for k, w in enumerate(state["hdr"]["toktext"][:ntok]) if w and w[0] != 45]
     vecs = set()
     while len(vecs) < n:
         ln = rnd.randint(lo, hi)
@@ -352,7 +352,7 @@ def run(ctx):
                        "spifopt_parse (pre-parse pass + normal pass as one script); targets, argv up to and including the NULL, bad-option "
                        "count and settings flags are compared after every pass with the values the specification computed")
     ctx.assumptions += ["help handler returns; bad-option limit 60000 (limit handling, which exits, is out of scope)",
-                        "lower-case spellings only; integer targets are long-sized cells initialised to 5, written through int*",
+                        "integer targets are long-sized cells initialised to 5, written through int*",
                         "ASan build of the current tree (clang -O1)"]
 
 
